@@ -405,7 +405,7 @@ def make_raising(exc_name, arg_kind):
     return _cache[name]
 
 
-VALUE_KINDS = ["scalar0d", "len-raises", "lock", "generator", "tuple-keyed-dict", "huge-int", "set", "bytes", "nan", "file-handle", "mixed-key-dict"]
+VALUE_KINDS = ["scalar0d", "array1", "np-int", "len-raises", "lock", "generator", "tuple-keyed-dict", "huge-int", "set", "bytes", "nan", "file-handle", "mixed-key-dict"]
 
 
 def unusual_value(kind):
@@ -414,6 +414,10 @@ def unusual_value(kind):
     import numpy as _np
     if kind == "scalar0d":
         return _np.asarray(3.5)                # Sized by ABC registration, len() raises TypeError
+    if kind == "array1":
+        return _np.array([3.0])                # a one-point grid: an array, not a number
+    if kind == "np-int":
+        return _np.int64(3)                    # not JSON-serialisable as it stands
     if kind == "len-raises":
         class OddSized:
             def __len__(self):
